@@ -255,6 +255,20 @@ func sqlBoundaryInputs() []string {
 				}
 			}
 		}
+		// (f) raw token counts around 8-bit boundaries on the inputs whose verdict depends on the
+		// token count (whitelist of "very small SQLi": 1U, 1c, s&n, n&1, 1&1, 1&v, 1&s)
+		for k := 120; k <= 135; k++ {
+			list := strings.Repeat(",1", k)
+			add("x' and 1" + list)
+			add("sexy and 17" + list)
+			add("1" + list + " union")
+			add("1" + list + " --")
+			add("foo and @a" + strings.Repeat("+@a", k))
+			add("1 and 'a'" + strings.Repeat(",'a'", k))
+		}
+		for _, k := range []int{32764, 32765, 32766, 32767, 32768, 32769} {
+			add("x' and 1" + strings.Repeat(",1", k))
+		}
 		// (e) byte-order mark and alias runes in front of fixtures
 		for i, f := range corp().SQL {
 			if i%4 == 0 {
